@@ -1,14 +1,15 @@
 ------------------------------- MODULE Record -------------------------------
 (***************************************************************************)
 (* Records of typed fields (C07): a field is [k, w, signed, order, value]   *)
-(* with value the MSB-first pattern of an integer field, or the raw bits of  *)
+(* with value the MSB-first pattern of an integer / float field, or the bits of *)
 (* a bit-string / string / byte-list field.  Pack = concatenation of the     *)
 (* fields' wire bits; ParseOk = reading the packed string field by field     *)
 (* returns the values and ends exactly at the end.                           *)
 (***************************************************************************)
 EXTENDS Bits
 
-Wire(f) == IF f.k = "int" THEN Encode(f.value, f.order) ELSE f.value
+Numeric(f) == f.k \in {"int", "flt"}     \* flt: value is the IEEE-754 bit pattern (32 or 64 bits)
+Wire(f) == IF Numeric(f) THEN Encode(f.value, f.order) ELSE f.value
 RECURSIVE Pack(_)
 Pack(fs) == IF fs = <<>> THEN <<>> ELSE Wire(Head(fs)) \o Pack(Tail(fs))
 RECURSIVE SumW(_)
@@ -19,7 +20,7 @@ RECURSIVE ParseOk(_, _, _)
 ParseOk(fs, packed, off) ==
   IF fs = <<>> THEN off = Len(packed)                                   \* remain = 0
   ELSE LET f == Head(fs)  got == BSub(packed, off, off + f.w) IN
-       /\ (IF f.k = "int" THEN Decode(got, f.order) = f.value ELSE got = f.value)
+       /\ (IF Numeric(f) THEN Decode(got, f.order) = f.value ELSE got = f.value)
        /\ ParseOk(Tail(fs), packed, off + f.w)
 
 =============================================================================
